@@ -151,6 +151,15 @@ func (r *Runner) replayGeom(l *Line) lineResult {
 			got := utreexo.RootPositions(n, R)
 			if !eqU64s(got, want) {
 				fail("geom.rootpositions", fmt.Sprintf("RootPositions(%d, %d)", n, R), want, got)
+			} else {
+				// the returned slice belongs to the caller: what the caller does with it
+				// must not show in the answer to the same question asked again
+				for i := range got {
+					got[i] = ^uint64(0) - uint64(i)
+				}
+				if again := utreexo.RootPositions(n, R); !eqU64s(again, want) {
+					fail("geom.rootpositions", fmt.Sprintf("RootPositions(%d, %d) asked again after the caller overwrote the slice returned the first time", n, R), want, again)
+				}
 			}
 			if tr := utreexo.TreeRows(n); int(tr) != g.TreeRows {
 				fail("geom.treerows", fmt.Sprintf("TreeRows(%d)", n), g.TreeRows, tr)
@@ -160,6 +169,31 @@ func (r *Runner) replayGeom(l *Line) lineResult {
 			pos := g.At.pos(g.R)
 			calls += 2
 			tree, branch, bf, err := utreexo.DetectOffset(pos, n)
+			if r.one && err == nil && int(tree) == g.Tree && int(branch) == g.Branch {
+				// re-execution of a stored case: in the run, other workers were asking the same pure
+				// function about other forests at the same time; do that here as well
+				stop := make(chan struct{})
+				go func() {
+					for i := uint64(0); ; i++ {
+						select {
+						case <-stop:
+							return
+						default:
+						}
+						utreexo.DetectOffset(i%5, 65536+i%100000)
+						utreexo.DetectOffset(i%7, 1<<40+i)
+						utreexo.DetectOffset(0, 3+i%60)
+					}
+				}()
+				for k := 0; k < 400000; k++ {
+					t2, b2, f2, e2 := utreexo.DetectOffset(pos, n)
+					if e2 != nil || int(t2) != g.Tree || int(b2) != g.Branch || f2 != bf {
+						tree, branch, bf, err = t2, b2, f2, e2
+						break
+					}
+				}
+				close(stop)
+			}
 			if err != nil {
 				fail("geom.detectoffset", fmt.Sprintf("DetectOffset(%d, %d) failed: %v", pos, n, err), nil, nil)
 				break
@@ -224,6 +258,21 @@ func (r *Runner) replayGeom(l *Line) lineResult {
 				snap := append([]uint64{}, tg...)
 				calls++
 				pp, comp := utreexo.ProofPositions(tg, g.N, RR)
+				if len(pp)+len(comp) > 0 {
+					// same for the slices this call returns
+					p0, c0 := append([]uint64{}, pp...), append([]uint64{}, comp...)
+					for i := range pp {
+						pp[i] = ^uint64(0) - uint64(i)
+					}
+					for i := range comp {
+						comp[i] = ^uint64(0) - uint64(i)
+					}
+					pp2, comp2 := utreexo.ProofPositions(append([]uint64{}, snap...), g.N, RR)
+					if !eqU64s(pp2, p0) || !eqU64s(comp2, c0) {
+						fail("geom.proofpositions", fmt.Sprintf("ProofPositions(%v, %d, %d) asked again after the caller overwrote the slices returned the first time", snap, g.N, RR), []any{p0, c0}, []any{pp2, comp2})
+					}
+					pp, comp = p0, c0
+				}
 				if !eqU64s(tg, snap) {
 					fail("geom.proofpositions", fmt.Sprintf("ProofPositions(%v, %d, %d) modified its argument", snap, g.N, RR), snap, tg)
 				}
